@@ -15,7 +15,8 @@ RULE = ('hypothesis: every public rand_* / get_*_rng of numqi.random (discovered
         'Circuit.measure, CliffordCircuit(seed).random_*, minimize, minimize_adam, get_purification, CHABoundaryBagging.solve). Oracle: validity predicate per generator; '
         'np.array_equal (bit identity) between the two calls. Non-trivial = at least one global-generator operation between the calls and a non-default optional branch; '
         'distinct = (function, branch signature, noise signature).'
-        ' Kraus/Choi/POVM generators (inverse square root of a random Gram matrix): a miss of the tight tolerance is tolerated only below the structural threshold 1e-2 and if 3 of 4 neighbouring seeds pass the tight tolerance.')
+        ' Kraus/Choi/POVM generators (inverse square root of a random Gram matrix): a miss of the tight tolerance is tolerated only below the structural threshold 1e-2 and if 3 of 4 neighbouring seeds pass the tight tolerance.'
+        ' numpy integer seeds act like the equal int; measurement repeated on the same array object and after the returned bit list was edited.')
 ASSUMPTIONS = ['distributional quality (Haar-ness) is not claimed and not tested',
                'rank statements: rank <= k is required, rank == k only labelled (it holds generically)',
                'CHABoundaryBagging.solve may raise cvxpy.SolverError in this image (no ECOS): counted inconclusive, only returned values are judged',
